@@ -58,6 +58,36 @@ type ptOpts struct {
 	classW     []int
 }
 
+func genSorterStress(r *RNG) *Trace {
+	typ := "OSAP"
+	if r.Chance(0.3) {
+		typ = "GSAP"
+	}
+	n := r.Range(120, 1500)
+	fam := r.pickStr("powers", "powers", "listtwice", "listtwice", "nested", "tandem")
+	spec := ParserSpec{Type: typ, BufferSize: n + r.Intn(64), BlockSize: r.Pick(0, 1<<16, n, n/2+1, 64)}
+	spec.WindowSize = spec.BufferSize + r.Intn(8)
+	spec.ShrinkSize = r.Intn(spec.BufferSize)
+	spec.MinMatchLen = r.Pick(0, 2, 3, 4)
+	if typ == "OSAP" {
+		spec.MaxMatchLen = r.Pick(0, 0, 273, 18, 64)
+		if mm := spec.MinMatchLen; spec.MaxMatchLen != 0 && spec.MaxMatchLen < maxInt(mm, 3) {
+			spec.MaxMatchLen = maxInt(mm, 3)
+		}
+	}
+	t := &Trace{World: "parser", P: &spec, Input: genInput(r, n, fam)}
+	t.Note = fmt.Sprintf("sorter-stress family=%s", fam)
+	t.Ops = append(t.Ops, Op{K: "Write", N: n})
+	bl := spec.BlockSize
+	if bl == 0 {
+		bl = 128 << 10
+	}
+	for i := n/bl + 2; i > 0; i-- {
+		t.Ops = append(t.Ops, Op{K: "Parse", Re: true})
+	}
+	return t
+}
+
 func genParserTrace(r *RNG, tier string, o ptOpts) *Trace {
 	typ := o.types[r.Intn(len(o.types))]
 	class := pickClass(r, tier, o.allowLarge)
@@ -180,6 +210,16 @@ func init() {
 			pg.aliasReset = true
 			if r.Chance(0.06) {
 				pg.trickle = 0.85
+			}
+			if run%20 == 7 || run%20 == 13 || run%20 == 17 {
+				// suffix sorter stress: the optimizing parser emits what the
+				// suffix array says without verification, so C01 on OSAP (and the
+				// match lengths of GSAP) stand and fall with suffix.Sort/LCP/
+				// Segments. One feed of a text built for the sorter's rare paths
+				// (tandem repeats, exhausted rank-sort budget), sorted in one go
+				// (buffer and window at least as large as the text), then parsed
+				// to the end.
+				return genSorterStress(r)
 			}
 			return genParserTrace(r, tier, ptOpts{types: parserTypes, pg: pg, wrapShare: 0.2, allowLarge: true, saLarge: true})
 		},
@@ -388,6 +428,11 @@ func init() {
 	// ---------------------------------------------------------------- C16 (clause 2; clause 1 is the config world)
 	register(&Prop{ID: "C16",
 		Gen: func(r *RNG, tier string, run int) *Trace {
+			if run%20 == 7 {
+				// suffix sorter stress (see C01): a wrong suffix array mostly shows
+				// as a panic in suffix.LCP or a Sort that does not return
+				return genSorterStress(r)
+			}
 			if r.Chance(0.25) {
 				return genConfigTrace(r)
 			}
